@@ -28,6 +28,7 @@ func runC17(c *Ctx) {
 	c.rule("blank-delegation", "(shared with C20) the ez entry points install the watched file through Blank.SetSource: the inner Watch gets the Dials watch context saved by Blank.Watch (not the SetSource caller's), the saved type and arguments", 5)
 	c.rule("blank-locking", "(shared with C20) Blank's fields are accessed under its mutex", 8)
 	c.rule("exit-on-fresh-scan", "(shared with C05/C08) the monitor keeps stacking the file source's reports until a complete scan of the watching bits finds no watcher: another source calling Done never stops a still-watching file source from being heard", 1)
+	c.rule("initial-check", "the watch loop looks at the file once when it starts, without waiting for an event (a change between the initial read and the setup of the watches raises none)", 1)
 	c.rule("release", "the loop goroutine defers watcher.Close, WG.Done and signal.Stop at entry, returns on <-ctx.Done(), and WG.Add(1) precedes `go`", 4)
 
 	w := c.W
@@ -83,6 +84,42 @@ func runC17(c *Ctx) {
 		default:
 			c.bad("reread-on-every-wakeup", armName, st.Pos, "the arm on %s can go back to waiting without re-reading the file (a missed change would never be picked up)", what)
 		}
+	}
+
+	// ---- initial-check: a change made between the initial read and the setup of the watches raises no event (D34),
+	// so the loop must look at the file once without waiting for one: either a re-read before the loop, or a
+	// wake-up arm on a channel that this function created with room for, and filled with, one token before the loop
+	{
+		okInit, how := false, ""
+		for _, ci := range callsToFn(loop, origin(val)) {
+			if !inLoop(ci.(ssa.Instruction)) && domI(ci.(ssa.Instruction), sel) {
+				okInit, how = true, "a re-read before the loop"
+			}
+		}
+		for _, st := range sel.States {
+			if st.Dir != types.RecvOnly {
+				continue
+			}
+			mk, ok := st.Chan.(*ssa.MakeChan)
+			if !ok {
+				if ct, isCT := st.Chan.(*ssa.ChangeType); isCT {
+					mk, ok = ct.X.(*ssa.MakeChan)
+				}
+			}
+			if !ok || inLoop(mk) {
+				continue
+			}
+			if sz, isC := mk.Size.(*ssa.Const); !isC || sz.Value == nil || sz.Int64() < 1 {
+				continue
+			}
+			for _, r := range *mk.Referrers() {
+				if snd, ok := r.(*ssa.Send); ok && !inLoop(snd) && domI(snd, sel) {
+					okInit, how = true, "a wake-up arm on a channel pre-loaded with one token"
+				}
+			}
+		}
+		c.check(okInit, "initial-check", name, sel.Pos(), "the loop looks at the file once when it starts ("+how+")",
+			"the watch loop waits for an event before its first look at the file: a change made between the initial read (dials.Config / Blank.SetSource read the value first and start the watcher later) and the setup of the watches raises no event, so if it was the last change the view never converges to the file's final content")
 	}
 
 	// ---- checksum-after-decode --------------------------------------------------------
